@@ -49,10 +49,18 @@ def literal_cases(rnd, n):
     """(source literal, expected text): encode a text in a randomly chosen valid spelling"""
     alphabet = ["a", "Z", " ", "é", "中", "\U0001F600", "́", '"', "'", "\\", "{", "}", "#", "\n", "\t", "0"]
     out = []
-    for _ in range(n):
-        text = "".join(rnd.choice(alphabet) for _ in range(rnd.randint(0, 6)))
-        kind = rnd.choice(["plain", "plain", "raw", "fenced", "rawfenced", "fmt"])
-        q = rnd.choice(['"', "'"])
+    # texts that look like escape sequences, format fields or fences themselves
+    tricky = ["\\u{41}", "\\u{1F600}", "\\n", "\\\\n", "\\u", "\\u{zz}", "\\u{", "u{41}", "{0}", "{{0}}", "\\{", "\\'", '\\"', "\\0", "\\t\\r", "#\"#", "'#", "a\\", "\\\\",
+              "\\u{41}\\u{42}", "x\\u{e9}y", "\\x41", "%s", "{x}", "{x:>5}", "}{", "\\}"]
+    plan = [(t, kd, qq) for t in tricky for kd in ("plain", "raw", "fenced", "rawfenced", "fmt") for qq in ('"', "'")]
+    plan += [None] * n
+    for item in plan:
+        if item is not None:
+            text, kind, q = item
+        else:
+            text = "".join(rnd.choice(alphabet) for _ in range(rnd.randint(0, 6)))
+            kind = rnd.choice(["plain", "plain", "raw", "fenced", "rawfenced", "fmt"])
+            q = rnd.choice(['"', "'"])
         if kind in ("plain", "fmt"):
             enc = ""
             for ch in text:
@@ -188,7 +196,7 @@ def run(chk, tier, seed):
     chk.cov["rule"] = ("TLC -simulate walks of XrStr (14 operations per program over a 14-symbol alphabet of 1-4 byte characters, "
                        "combining marks and case-expanding characters) + literal spellings generated by encoding a text "
                        "(quote kind, fences, raw, escapes, formatted) + formatted-string/join identities; non-trivial = distinct program / literal")
-    chk.assumptions += ["negative string indices, empty needles and positions beyond the end are left open by std/str.md and not generated"]
+    chk.assumptions += ["negative substring / find positions, empty needles and positions beyond the end are left open by std/str.md and not generated"]
 
 
 def replay(chk, path):
